@@ -1,7 +1,9 @@
 #!/usr/bin/env python3
 """Sensitivity runs: apply one hand-written mutant to /repo's working tree, run the quick tier of the
 properties it should break, revert (always). Usage: tools/sens.py [name-substring ...]
-A mutant is (name, file, old, new, [properties expected to fail])."""
+A mutant is (name, file, old, new, [properties expected to fail]).
+With VERIF_ONLY=e2e|inproc in the environment the checks run only that engine (what does the end-to-end part catch
+on its own?); those verdicts are logged under the key "<name>@<engine>"."""
 import subprocess, sys, os, json, time
 
 M = []
@@ -197,7 +199,7 @@ if __name__ == "__main__":
             log = {}
         subs = sorted({k.split()[0][4:] for _, _, _, keys in r[2] for k in keys})
         first = [k.split(" :: ")[0].split("key=")[-1] for _, _, _, keys in r[2] for k in keys[:1]]
-        log[r[0]] = {"file": mm[1], "expected": mm[4], "verdict": r[1] if mm[4] else "no property expected", "sub_checks": subs, "first_key": first[:1],
+        log[r[0] + ("@" + os.environ["VERIF_ONLY"] if os.environ.get("VERIF_ONLY") else "")] = {"file": mm[1], "expected": mm[4], "verdict": r[1] if mm[4] else "no property expected", "sub_checks": subs, "first_key": first[:1],
                      "exit": {p_: rc for p_, rc, _, _ in r[2]}}
         json.dump(log, open(logp, "w"), indent=1, sort_keys=True)
     subprocess.run(["git", "-C", "/repo", "checkout", "--", "."])
